@@ -635,6 +635,50 @@ class BaseChannel:
                 f"`send_input` expects a single string, got {type(channel_input)}."
             )
 
+    def _interaction_complete(
+        self,
+        read_buf: bytes,
+        channel_response: str,
+        interaction_complete_patterns: Optional[List[str]],
+    ) -> bool:
+        """
+        Decide if an interactive "session" ended on one of the interaction complete patterns
+
+        Args:
+            read_buf: bytes read for the current interact event
+            channel_response: the response that was expected for the current interact event
+            interaction_complete_patterns: patterns that, if seen, indicate the interactive
+                "session" has ended
+
+        Returns:
+            bool: True if the read ended on an interaction complete pattern rather than on the
+                expected response, meaning no further interact inputs should be sent
+
+        Raises:
+            N/A
+
+        """
+        if not interaction_complete_patterns:
+            return False
+
+        search_buf = self._process_read_buf(read_buf=BytesIO(read_buf))
+        class_pattern = self._base_channel_args.comms_prompt_pattern
+
+        if re.search(
+            pattern=self._get_prompt_pattern(class_pattern=class_pattern, pattern=channel_response),
+            string=search_buf,
+        ):
+            # we got the response we expected for this event, carry on with the next event
+            return False
+
+        return any(
+            re.search(
+                pattern=self._get_prompt_pattern(class_pattern=class_pattern, pattern=pattern),
+                string=search_buf,
+            )
+            for pattern in interaction_complete_patterns
+        )
+
     @staticmethod
     def _pre_send_inputs_interact(interact_events: List[Tuple[str, str, Optional[bool]]]) -> None:
         """
